@@ -303,6 +303,8 @@ def rule_no_struct_copies_into_caches(ctx, rule='R17.7'):
 
 
 def run(ctx):
+    from . import c19
+    c19.rule_serving_is_readonly(ctx)     # R19.4: copying does not change the source
     rule_no_struct_copies_into_caches(ctx)
     serial.rule_inert_members(ctx, 'R17.8')       # a latch that is not persisted must not steer the copy differently from its source
     from . import c06
